@@ -460,8 +460,9 @@ def bodiesOf (t : Nat) (ss : List Wire.Subpacket) : List Bytes :=
   (ss.filter fun s => s.typ.toNat == t).map (·.body)
 
 /-- a parsed Signature packet (`Wire.Sig`) as the verification functions read it.  The hashed area
-that enters the digest is the **re-serialisation** of the parsed subpackets
-(`packet.to_writer(&mut hashed_subpackets)` in `hash_signature_data`), not the octets received. -/
+that enters the digest is the re-serialisation of the parsed subpackets
+(`packet.to_writer(&mut hashed_subpackets)` in `hash_signature_data`); for a packet the parser
+accepts that is the hashed area as received (`Wire.sig_parse_hashed_canonical`). -/
 def ofWire : Wire.Sig → Sig
   | .v3 _ typ created issuer pk hash left sb =>
     { cfg := { ver := .v3, typ := typ, pk := pk, hash := hash, area := [], created := beNat created },
@@ -492,63 +493,51 @@ def embeddedOf : Wire.Sig → Option Bytes
     | [] => (bodiesOf Gen.spRdEmbeddedSignature unhashed).head?
   | _ => none
 
-/-- the hashed-area octets of a v4 / v6 signature packet body, as received -/
-def rawHashedArea (body : Bytes) : Bytes :=
-  match body with
-  | v :: _ :: _ :: _ :: r =>
-    let w := if v.toNat = 6 then 4 else 2
-    (r.drop w).take (beNat (r.take w))
-  | _ => []
+/-- `Signature::try_from_reader` on a packet body (C05's `Wire.sigParse`), then the view above.
+Since the D2a repair the parser refuses a v4 / v6 packet whose hashed area would be written back
+differently from the octets received (`ensure_hashed_area_canonical`, modelled in
+`Wire.areaParseCanon`; the translator flag `Gen.sndHashedAreaCanonical` records that the call is
+in both parsers), at every nesting level of embedded signatures, in either area: the hashed area
+that enters the digest (`Cfg.area`) is `Wire.rawHashedArea body`. -/
+def parseSig (body : Bytes) : Option Sig := (Wire.sigParse (Wire.embFor body) body).map ofWire
 
-/-- would `hash_signature_data` write the hashed area back exactly as it was received? -/
-def hashedAreaCanonical (w : Wire.Sig) (body : Bytes) : Bool :=
-  match w with
-  | .v4 _ _ _ _ hashed _ _ _ _ => Wire.areaSer hashed == some (rawHashedArea body)
-  | _ => true
-
-/-- `Signature::try_from_reader` on a packet body, then the view above.  The parser of the tree
-this model was written against does not compare the hashed area with its re-serialisation
-(`Gen.sndHashedAreaCanonical = 0`); with the candidate repair it refuses a packet whose hashed
-area is not in the form that is hashed. -/
-def parseSig (body : Bytes) : Option Sig :=
-  match Wire.sigParse (Wire.embFor body) body with
-  | none => none
-  | some w =>
-    if Gen.sndHashedAreaCanonical = 1 ∧ hashedAreaCanonical w body = false then none
-    else some (ofWire w)
+/-- PRE-FIX behaviour (before commit 11d69e3, kept for the regression theorems only): the message
+parser called `Signature::try_from_reader(header, &mut packet)` and dropped what was left of the
+packet body; the signature parser reads forward, so the accepted packet was the longest
+prefix that parses (the shortest tail removed). -/
+def parseSigPrefixPreFix (body : Bytes) : Option Sig :=
+  (List.range (body.length + 1)).findSome? fun n => parseSig (body.take (body.length - n))
 
 /-- `composed/message/parser.rs`, `Tag::Signature` arm: `Signature::try_from_reader(header, &mut packet)`
-followed by `packet.into_inner()` - unlike `PacketParser` (`packet/single.rs`: "failed to consume
-data … bytes too many") the message parser does not look at what is left of the packet body
-(`Gen.sndMsgSigExhausted = 0`).  The signature parser reads forward, so the accepted packet is the
-shortest-tail-removed prefix that parses. -/
+followed by `ensure_packet_consumed(&mut packet)` (`Gen.sndMsgSigExhausted = 1`): as for packets read
+through `PacketParser` (`packet/single.rs`, `PacketTooLarge`), the body must be exactly one
+signature. -/
 def parseSigPrefix (body : Bytes) : Option Sig :=
-  if Gen.sndMsgSigExhausted = 1 then parseSig body
-  else (List.range (body.length + 1)).findSome? fun n => parseSig (body.take (body.length - n))
+  if Gen.sndMsgSigExhausted = 1 then parseSig body else parseSigPrefixPreFix body
 
-/-- the same for the `Tag::OnePassSignature` arm: `OnePassSignature::try_from_reader` reads
-4 + 8 + 1 octets (v3) or 4 + 1 + salt + 32 + 1 octets (v6) and the rest of the body is dropped;
+/-- PRE-FIX behaviour of the `Tag::OnePassSignature` arm: `OnePassSignature::try_from_reader` reads
+4 + 8 + 1 octets (v3) or 4 + 1 + salt + 32 + 1 octets (v6) and the rest of the body was dropped;
 other versions take the whole body -/
+def parseOpsPrefixPreFix (body : Bytes) : Option Wire.Ops :=
+  match body with
+  | v :: _ :: _ :: _ :: r =>
+    if v.toNat = 3 then Wire.opsParse (body.take 13)
+    else if v.toNat = 6 then
+      match r with
+      | sl :: _ => Wire.opsParse (body.take (5 + sl.toNat + 33))
+      | [] => none
+    else Wire.opsParse body
+  | _ => none
+
+/-- the `Tag::OnePassSignature` arm, with `ensure_packet_consumed` after the parse -/
 def parseOpsPrefix (body : Bytes) : Option Wire.Ops :=
-  if Gen.sndMsgSigExhausted = 1 then Wire.opsParse body
-  else
-    match body with
-    | v :: _ :: _ :: _ :: r =>
-      if v.toNat = 3 then Wire.opsParse (body.take 13)
-      else if v.toNat = 6 then
-        match r with
-        | sl :: _ => Wire.opsParse (body.take (5 + sl.toNat + 33))
-        | [] => none
-      else Wire.opsParse body
-    | _ => none
+  if Gen.sndMsgSigExhausted = 1 then Wire.opsParse body else parseOpsPrefixPreFix body
 
 /-- a binding signature with its key flags and embedded back-signature -/
 def parseBindSig (body : Bytes) : Option BindSig :=
   match Wire.sigParse (Wire.embFor body) body with
   | none => none
   | some w =>
-    if Gen.sndHashedAreaCanonical = 1 ∧ hashedAreaCanonical w body = false then none
-    else
     some { sig := ofWire w, signFlag := signFlagOf w,
            embedded := match embeddedOf w with
              | none => none
